@@ -596,3 +596,29 @@ func subOverflows(a, b Integer) bool {
 
 //@ func (*scanner).SkipByte
 //@ ensures [C13.skip.mode] s.eexec == old(s.eexec)
+
+// ---------------------------------------------------------------------
+// C12: buffered refill loses nothing and does not depend on the delivery schedule
+
+//@ func (*scanner).refill
+//@ requires s.pos >= s.used
+//@ ensures [C12.refill.data] result != nil ==> s.pos >= s.used
+//@ ensures [C12.refill.progress] result == nil ==> s.pos == 0 && s.used > 0 || s.used == 0
+//@ ensures [C12.refill.bounds] 0 <= s.pos && s.pos <= s.used && s.used <= len(s.buf)
+
+// ---------------------------------------------------------------------
+// C18: every interpreter instance gets freshly allocated dictionaries and arrays
+
+//@ func makeSystemDict
+//@ ensures [C18.fresh.systemdict] fresh(result)
+//@ ensures [C18.fresh.encoding] has(result, Name("StandardEncoding")) && isType(result[Name("StandardEncoding")], Array) && fresh(result[Name("StandardEncoding")].(Array))
+//@ ensures [C18.fresh.userdict] fresh(result[Name("userdict")].(Dict)) && fresh(result[Name("errordict")].(Dict)) && fresh(result[Name("FontDirectory")].(Dict))
+
+//@ func NewInterpreter
+//@ ensures [C18.fresh.intp] fresh(result) && fresh(result.SystemDict) && fresh(result.UserDict) && fresh(result.ErrorDict) && fresh(result.InternalDict) && fresh(result.FontDirectory) && fresh(result.CMapDirectory) && fresh(result.Resources) && fresh(result.DictStack)
+//@ loop 1 invariant [C18.fresh] intp != nil && intp.Resources == resources
+//@ loop 1 invariant [C18.fresh] intp.ErrorDict != resources
+//@ loop 1 invariant [C18.fresh] has(resources, Name("ProcSet")) && isType(resources[Name("ProcSet")], Dict) && fresh(resources[Name("ProcSet")].(Dict))
+//@ loop 1 invariant [C18.fresh] intp.ErrorDict != resources[Name("ProcSet")].(Dict)
+//@ loop 1 invariant [C18.fresh] has(resources[Name("ProcSet")].(Dict), Name("CIDInit")) && isType(resources[Name("ProcSet")].(Dict)[Name("CIDInit")], Dict) && fresh(resources[Name("ProcSet")].(Dict)[Name("CIDInit")].(Dict))
+//@ ensures [C18.fresh.procset] has(result.Resources, Name("ProcSet")) && isType(result.Resources[Name("ProcSet")], Dict) && fresh(result.Resources[Name("ProcSet")].(Dict)) && has(result.Resources[Name("ProcSet")].(Dict), Name("CIDInit")) && isType(result.Resources[Name("ProcSet")].(Dict)[Name("CIDInit")], Dict) && fresh(result.Resources[Name("ProcSet")].(Dict)[Name("CIDInit")].(Dict))
